@@ -101,11 +101,20 @@ func runC04(res *lp.Result) {
 				if cs.name == "snappy" && v == primitive.ProtocolVersion5 {
 					continue
 				}
-				for i := 0; i < per; i++ {
+				for i := 0; i < per+1; i++ {
 					g := &gen.G{R: rng, V: v}
 					f := g.Frame(kind)
 					if f == nil {
 						continue
+					}
+					large := false
+					if i == per {
+						// a valid frame whose lists have more than 1024 entries (beyond what decoders allocate up front): the valid
+						// encoding itself and a few mutations of it
+						if cs.name != "none" || !g.Enlarge(f) {
+							continue
+						}
+						large = true
 					}
 					if cs.comp != nil {
 						f.SetCompress(true)
@@ -117,6 +126,12 @@ func runC04(res *lp.Result) {
 					enc := append([]byte{}, buf.Bytes()...)
 					hl := headerLen(v)
 					muts := mutations(rng, enc, hl, nmut)
+					if large {
+						if len(muts) > 3 {
+							muts = muts[:3]
+						}
+						muts = append([][]byte{enc}, muts...)
+					}
 					if rng.Intn(4) == 0 {
 						muts = append(muts, rng.Bytes(rng.Intn(64)))
 					}
